@@ -1022,20 +1022,36 @@ def P_C19 (attr : Toks) (item : Item) (view : View) : Bool :=
 
 /-! ## C15 — misuse yields its diagnostic; never a panic; the output always parses -/
 
+/-- a dependency type the analysis rejects outright -/
+def tyMisuse : Ty → Option String
+  | .path true _ _ _ _ => some msgNoSelf
+  | .path false true _ _ _ => some msgNoLeadingColon
+  | _ => none
+
+/-- the misuse of a signature that the dependency analysis itself rejects -/
+def depsError (s : Sig) : Option String :=
+  match s.inputs with
+  | [] => some msgNoReceiver
+  | .recv .. :: _ => some msgSelfReceiver
+  | .typed _ _ ty :: _ => tyMisuse ty.stripRefs
+
+def concreteMisuse : Mode → List String
+  | .mod_ => [msgConcreteInModule]
+  | .impl => [msgConcreteInImpl]
+  | _ => []
+
 def sigMisuses (noDeps : Bool) (mode : Mode) (s : Sig) : List String :=
   if noDeps then []
   else
-    match s.inputs with
-    | [] => [msgNoReceiver]
-    | .recv .. :: _ => [msgSelfReceiver]
-    | .typed _ _ ty :: _ =>
-        match ty.stripRefs with
-        | .path true _ _ _ _ => [msgNoSelf]
-        | .path false true _ _ _ => [msgNoLeadingColon]
-        | _ =>
-          if s.depIsConcrete then
-            (match mode with | .mod_ => [msgConcreteInModule] | .impl => [msgConcreteInImpl] | _ => [])
-          else []
+    match depsError s with
+    | some m => [m]
+    | none => if s.depIsConcrete then concreteMisuse mode else []
+
+def delegationMisuses : Option (Toks × String) → Option Delegate → List String
+  | none, some (.byTrait _) => [msgCustomWithoutTrait]
+  | some _, none => [msgMissingDelegateBy]
+  | some _, some .bySelf => [msgMissingDelegateBy]
+  | _, _ => []
 
 /-- the documented misuses present in an invocation, each with its specific message;
     `none`: the attribute arguments or the item are malformed at the syn level (no claim about
@@ -1067,12 +1083,8 @@ def specMisuses (attr : Toks) (item : Item) : Option (List String) :=
       | .error .syn => none
       | .error (.diag msg) => some [msg]
       | .ok a =>
-          some ((match a.implTrait, a.delegation with
-                 | none, some (.byTrait _) => [msgCustomWithoutTrait]
-                 | some _, none => [msgMissingDelegateBy]
-                 | some _, some .bySelf => [msgMissingDelegateBy]
-                 | _, _ => []) ++
-                (if t.members.any (fun m => match m with | .other _ => true | _ => false) then [msgUnsupportedTraitItem] else []))
+          some (delegationMisuses a.implTrait a.delegation ++
+                (if t.members.any TraitMember.isOther then [msgUnsupportedTraitItem] else []))
 
 /-- `realDiag`: `some msgs` if the macro answered with compile errors; `realPanic`; `realParsed` -/
 def P_C15 (attr : Toks) (item : Item) (realPanic : Bool) (realDiag : Option (List String)) (realParsed : Bool) : Bool :=
